@@ -1,6 +1,6 @@
-"""C19 translator: Python ast of HTTPException.__init__, _HTTPMove.__init__, HTTPException._json_formatter,
-HTTPException.prepare and HTTPException.__call__ (src/pyramid/httpexceptions.py) -> Gallina definitions
-gen_init / gen_move_init / gen_prepare / gen_call, re-run on every check (prop.facts) and emitted into
+"""C19 translator: Python ast of HTTPException.__init__, _HTTPMove.__init__, HTTPForbidden.__init__,
+HTTPException._json_formatter, HTTPException.prepare and HTTPException.__call__ (src/pyramid/httpexceptions.py) ->
+Gallina definitions gen_init / gen_move_init / gen_forbidden_init / gen_prepare / gen_call, re-run on every check (prop.facts) and emitted into
 coq/Gen/Facts_C19.v.
 
 Fail-closed: a statement outside the SUBSET, an expression outside the PRIMITIVE TABLE, a typing surprise, a changed
@@ -29,24 +29,34 @@ that the Coq development still builds and the violation search has a model and a
                            (break, return, else-clause, assignments to self inside a loop: Problem)
   nested class             only the exact JsonPageTemplate shape (an object whose substitute(status=, body=) is
                            json.dumps(self.excobj._json_formatter(status=, body=, title=self.excobj.title, environ=)));
-                           _json_formatter itself is translated (its dict literal)
+                           _json_formatter itself is translated (its dict literal); the call goes to the instance
+                           attribute when the constructor stored a formatter:
+                           (match ob_formatter self with Some f => rmap json_object (apply_fmt f ..) | None => <method>)
   self.prepare(environ)    (rbind (gen_prepare neg self environ) (fun selfN => <rest>))
-  super().__init__(k=v..)  gen_init with the keyword arguments placed by name; keywords that are not parameters of
-                           HTTPException.__init__ are prepended, as (name, value) pairs, to **kw
+  super().__init__(..) / <Base>.__init__(self, ..)
+                           when every class from the base up to HTTPException defines no __init__ / __new__ (checked):
+                           gen_init with positional arguments bound in the order of HTTPException.__init__'s parameters
+                           and keyword arguments by name (missing ones = None); keywords that are not parameters of
+                           HTTPException.__init__ are prepended, as (name, value) pairs, to **kw; a json_formatter= of
+                           the caller travels inside **kw (separate parameter kw_json_formatter)
   raise                    only inside a branch that was resolved away statically; otherwise Problem
   return Response.__call__(self, environ, start_response)     Ok (respond self, self)
 
 === PRIMITIVE TABLE (trusted: each line is a claim about Python / WebOb / Pyramid semantics) ====================
   parameters            prepare/__call__: self : obj, environ : list (text * text) (str-valued items, in order);
                         __init__: detail, comment, body_template : option text; headers : list of pairs (None = []);
-                        json_formatter : fixed to None (the default formatter); **kw : list of (name, text);
+                        json_formatter : option fmt (None = the default formatter; Some f: a formatter of the family
+                        of coq/Model/C19_base.v, apply_fmt); **kw : list of (name, text): content_type, charset, location;
+                        HTTPForbidden.__init__: result (stored, never read by the modelled code: erased);
                         _HTTPMove.__init__: location : text (never None)
   self.<attr> (read)    comment detail : option text; explanation status title code : text (code: the decimal text
                         of the int class attribute); charset : text ([] = None); has_body : negb (is_nil body);
                         empty_body : bool; body_template_obj : the template text; html_template_obj /
                         plain_template_obj : the regenerated literals html_template / plain_template;
                         headers.items() : ob_headers (Content-Type/-Length left out: '-' cannot occur in an identifier)
-  self.<attr> (write)   content_type (charset kept: WebOb re-adds/keeps it for text types), charset = None, body,
+  self.<attr> (write)   content_type = 'literal' (WebOb's setter: ob_ctype := literal, ob_charset := default_charset
+                        literal, i.e. UTF-8 for text/*, text/html and XML types, none otherwise; earlier parameters are
+                        dropped), charset = None, _json_formatter = f (ob_formatter := Some f), body,
                         detail, comment, body_template_obj = Template(t) (marks the object's template as custom);
                         message, body_template, app_iter: not observed, erased;  del content_type (also drops the
                         charset), del content_length (erased)
@@ -66,7 +76,8 @@ that the Coq development still builds and the violation search has a model and a
   Template(t)           t ;  json.dumps(dict of texts) -> json_object ;  isinstance(text, str) -> True
   x.encode(E)           encode_text E x  (UTF-8 only; another codec is an explicit error value)
   a if c else b         (if c then a else b)
-  Response.__init__(self, status=s, **kw)   ob_status := s, content type text/html, charset UTF-8, headers :=
+  Response.__init__(self, status=s, **kw)   ob_status := s, ob_ctype := kw_ctype kw (content_type= or text/html),
+                        ob_charset := kw_charset kw (charset= or UTF-8, for texty types only), headers :=
                         kw_headers kw (location= becomes the Location header), body empty
   Exception.__init__(self, detail)          no observable effect
   self.headers.extend(h)                    ob_headers := ob_headers ++ h
@@ -80,13 +91,14 @@ HERE = os.path.dirname(os.path.abspath(__file__))
 # every source function whose control flow is regenerated on every run (tools/coverage_map.py reads this)
 TRANSLATED = ['pyramid/httpexceptions.py:HTTPException.__init__',
               'pyramid/httpexceptions.py:_HTTPMove.__init__',
+              'pyramid/httpexceptions.py:HTTPForbidden.__init__',
               'pyramid/httpexceptions.py:HTTPException._json_formatter',
               'pyramid/httpexceptions.py:HTTPException.prepare',
               'pyramid/httpexceptions.py:HTTPException.__call__']
 FALLBACK = os.path.join(HERE, 'gen_fallback.json')
 
 FIELDS = ['ob_code', 'ob_title', 'ob_expl', 'ob_tmpl', 'ob_tmpl_custom', 'ob_empty', 'ob_status', 'ob_detail',
-          'ob_comment', 'ob_headers', 'ob_ctype', 'ob_charset', 'ob_body']
+          'ob_comment', 'ob_headers', 'ob_ctype', 'ob_charset', 'ob_body', 'ob_formatter']
 READ = {'comment': ('ob_comment', 'otext'), 'detail': ('ob_detail', 'otext'), 'explanation': ('ob_expl', 'text'),
         'status': ('ob_status', 'text'), 'title': ('ob_title', 'text'), 'code': ('ob_code', 'text'),
         'charset': ('ob_charset', 'text'), 'empty_body': ('ob_empty', 'bool')}
@@ -359,8 +371,10 @@ def call(n, st, cx):
                 kws = {k.arg: k.value for k in n.keywords}
                 if sorted(kws) != ['body', 'status']:
                     raise Problem('JsonPageTemplate.substitute keywords')
-                return T('(Ok %s)' % cx.helpers['json_formatter'](expr(kws['status'], st, cx),
-                                                                 expr(kws['body'], st, cx), st), 'res text')
+                sv, bv = expr(kws['status'], st, cx), expr(kws['body'], st, cx)
+                if sv.ty != 'text' or bv.ty != 'text':
+                    raise Problem('JsonPageTemplate.substitute arguments of types %s, %s' % (sv.ty, bv.ty))
+                return T(cx.helpers['json_formatter'](sv, bv, st), 'res text')
             raise Problem('substitute on a %s' % x.ty)
         if m == 'encode' and x.ty == 'text' and len(n.args) == 1 and not n.keywords:
             e = expr(n.args[0], st, cx)
@@ -409,10 +423,10 @@ def cond(n, st, cx, kt, ke):
                     return (ke if neg else kt)(st)
                 if x.ty in ('text', 'pairs'):
                     return (kt if neg else ke)(st)
-                if x.ty == 'otext' and isinstance(l, ast.Name):
+                if x.ty in ('otext', 'ofmt') and isinstance(l, ast.Name):
                     v = 'o%d' % cx.fresh()
                     s1 = st.copy()
-                    s1.vars[l.id] = T(v, 'text')
+                    s1.vars[l.id] = T(v, 'text' if x.ty == 'otext' else 'fmt')
                     some, none = (kt if neg else ke)(s1), (ke if neg else kt)(st)
                     if some == none:
                         return none
@@ -475,12 +489,20 @@ def assigned_names(stmts):
 
 
 def set_attr(st, attr, value_node, cx):
-    if attr in ('message', 'body_template', 'app_iter'):
+    if attr in ('message', 'body_template', 'app_iter', 'result'):
         expr(value_node, st, cx)       # must still be in the table
         return
     v = expr(value_node, st, cx)
     if attr == 'content_type' and v.ty == 'text':
+        # WebOb's content_type setter: the value (a literal without parameters), plus the default charset for
+        # "texty" types; every earlier Content-Type parameter is dropped
+        if not (isinstance(value_node, ast.Constant) and isinstance(value_node.value, str) and value_node.value
+                and ';' not in value_node.value and 'charset=' not in value_node.value):
+            raise Problem('self.content_type = %s: only a literal type without parameters is in the table' % u(value_node))
         st.fields['ob_ctype'] = v.code
+        st.fields['ob_charset'] = '(default_charset %s)' % v.code
+    elif attr == '_json_formatter' and v.ty == 'fmt':
+        st.fields['ob_formatter'] = '(Some %s)' % v.code
     elif attr == 'charset' and v.ty == 'none':
         st.fields['ob_charset'] = '(@nil N)'
     elif attr == 'body' and v.ty == 'bytes':
@@ -610,7 +632,7 @@ def block(stmts, st, cx, kont):
             if sv.ty != 'text' or kw.ty != 'kw':
                 raise Problem('Response.__init__ arguments of types %s, %s' % (sv.ty, kw.ty))
             st = st.copy()
-            st.fields.update(ob_status=sv.code, ob_ctype='t_html', ob_charset='cs_utf8',
+            st.fields.update(ob_status=sv.code, ob_ctype='(kw_ctype %s)' % kw.code, ob_charset='(kw_charset %s)' % kw.code,
                              ob_headers='(kw_headers %s)' % kw.code, ob_body='(@nil N)')
             return nxt(st)
         if d == "Attribute(value=Attribute(value=Name(id='self', ctx=Load()), attr='headers', ctx=Load()), attr='extend', ctx=Load())" \
@@ -629,11 +651,27 @@ def block(stmts, st, cx, kont):
             b = 'self%d' % cx.fresh()
             s2 = St(st.vars, b)
             return '(rbind (gen_prepare neg %s %s) (fun %s => %s))' % (st.obj(), e.code, b, nxt(s2))
-        if d == "Attribute(value=Call(func=Name(id='super', ctx=Load()), args=[], keywords=[]), attr='__init__', ctx=Load())" \
-                and 'init_params' in cx.helpers and not c.args and not st.loop:
+        via_super = d == "Attribute(value=Call(func=Name(id='super', ctx=Load()), args=[], keywords=[]), attr='__init__', ctx=Load())"
+        via_name = (isinstance(c.func, ast.Attribute) and c.func.attr == '__init__' and isinstance(c.func.value, ast.Name)
+                    and c.func.value.id in cx.helpers.get('base_init_classes', ()) and c.args and is_self(c.args[0]))
+        if (via_super or via_name) and 'init_params' in cx.helpers and not st.loop:
+            # the constructor of the base class: resolves (checked in translate()) to HTTPException.__init__;
+            # positional arguments bind to its parameters in order, keywords by name
             params = cx.helpers['init_params']
             given, extra, star = {}, [], None
+            pos = list(c.args[1:]) if via_name else list(c.args)
+            if via_super and not cx.helpers.get('super_ok'):
+                raise Problem('super().__init__ in a class whose base constructor was not resolved')
+            order_all = cx.helpers['init_order'] + ['json_formatter']
+            if len(pos) > len(order_all) or any(isinstance(a, ast.Starred) for a in pos):
+                raise Problem('base constructor call: positional arguments %s' % u(c))
+            for name, a in zip(order_all, pos):
+                if name == 'json_formatter':
+                    raise Problem('base constructor call passes json_formatter positionally')
+                given[name] = expr(a, st, cx)
             for k in c.keywords:
+                if k.arg is not None and k.arg in given:
+                    raise Problem('base constructor call: %s given twice' % k.arg)
                 if k.arg is None:
                     star = expr(k.value, st, cx)
                 elif k.arg in params:
@@ -643,16 +681,25 @@ def block(stmts, st, cx, kont):
                     if v.ty != 'text':
                         raise Problem('extra keyword %s of type %s' % (k.arg, v.ty))
                     extra.append('(%s, %s)' % (lit(k.arg), v.code))
-            if star is None or star.ty != 'kw' or sorted(given) != sorted(p for p, _ in params.items()):
-                raise Problem('super().__init__ call does not pass every modelled parameter by keyword and **kw')
+            if 'json_formatter' in [k.arg for k in c.keywords]:
+                raise Problem('super().__init__ passes json_formatter explicitly (the table takes it from **kw)')
+            for p_, ty_ in params.items():
+                if p_ not in given:           # parameter left to its default (None)
+                    given[p_] = T('None' if ty_ == 'otext' else '(@nil (text * text))', 'none' if ty_ == 'otext' else 'pairs')
+            if star is None or star.ty != 'kw':
+                raise Problem('base constructor call does not pass **kw')
             for p, ty in params.items():
+                if given[p].ty == 'none' and ty == 'otext':
+                    given[p] = T('(@None text)', 'otext')
                 if given[p].ty != ty:
-                    raise Problem('super().__init__: %s has type %s, expected %s' % (p, given[p].ty, ty))
+                    raise Problem('base constructor call: %s has type %s, expected %s' % (p, given[p].ty, ty))
             kwc = star.code
             for e in reversed(extra):
                 kwc = '(%s :: %s)' % (e, kwc)
             order = cx.helpers['init_order']
-            s2 = St(st.vars, '(gen_init %s %s %s)' % (st.obj(), ' '.join(given[p].code for p in order), kwc))
+            # a json_formatter= keyword of the caller travels inside **kw and binds to HTTPException.__init__'s parameter
+            s2 = St(st.vars, '(gen_init %s %s %s %s)' % (st.obj(), ' '.join(given[p].code for p in order),
+                                                       st.vars['**kw.json_formatter'].code, kwc))
             return nxt(s2)
         raise Problem('statement %s' % u(s))
     if isinstance(s, ast.Return):
@@ -684,6 +731,30 @@ def find(tree, cls, name):
                         raise Problem('%s.%s is decorated' % (cls, name))
                     return f
     raise Problem('%s.%s not found' % (cls, name))
+
+
+def single_base(tree, name):
+    cs = [c for c in tree.body if isinstance(c, ast.ClassDef) and c.name == name]
+    if len(cs) != 1 or len(cs[0].bases) != 1 or not isinstance(cs[0].bases[0], ast.Name) or cs[0].keywords:
+        raise Problem('class %s: not a single-base class statement' % name)
+    return cs[0].bases[0].id
+
+
+def inherits_base_init(tree, name):
+    """the classes from `name` up to (excluding) HTTPException when none of them defines __init__ (so that
+    <any of them>.__init__ / super().__init__ of a direct subclass IS HTTPException.__init__); else Problem"""
+    chain = []
+    while name != 'HTTPException':
+        if len(chain) > 10:
+            raise Problem('base class chain too long')
+        cs = [c for c in tree.body if isinstance(c, ast.ClassDef) and c.name == name]
+        if len(cs) != 1:
+            raise Problem('class %s is not defined exactly once' % name)
+        if any(isinstance(f, ast.FunctionDef) and f.name in ('__init__', '__new__') for f in cs[0].body):
+            raise Problem('class %s defines its own constructor: the base constructor call is not HTTPException.__init__' % name)
+        chain.append(name)
+        name = single_base(tree, name)
+    return chain + ['HTTPException']
 
 
 def check_bindings(tree):
@@ -747,7 +818,12 @@ def translate(tree):
         d = expr(body[0].value, s0, cx0)
         if d.ty != 'env':
             raise Problem('_json_formatter returns a %s' % d.ty)
-        return '(json_object %s)' % d.code
+        # self.excobj._json_formatter: the instance attribute set by __init__(json_formatter=) shadows the method
+        if 'environ' not in st.vars or st.vars['environ'].ty != 'pairs':
+            raise Problem('JsonPageTemplate: environ is not the environ of prepare')
+        return ('(match %s with Some f => (rmap json_object (apply_fmt f %s %s %s %s (@nil (text * text)))) '
+                '| None => (Ok (json_object %s)) end)'
+                % (st.field('ob_formatter'), status.code, bodyv.code, st.field('ob_title'), st.vars['environ'].code, d.code))
     helpers['json_formatter'] = json_formatter
 
     out = []
@@ -758,11 +834,12 @@ def translate(tree):
             or [ast.dump(d) for d in defaults] != ['Constant(value=None)'] * 5:
         raise Problem('HTTPException.__init__ signature')
     st = St({'detail': T('detail', 'otext'), 'headers': T('headers', 'pairs'), 'comment': T('comment', 'otext'),
-             'body_template': T('body_template', 'otext'), 'json_formatter': T('None', 'none'), 'kw': T('kw', 'kw')}, 'self')
+             'body_template': T('body_template', 'otext'), 'json_formatter': T('json_formatter', 'ofmt'),
+             'kw': T('kw', 'kw')}, 'self')
     cx = Ctx('obj', None, meta, helpers)
     code = block(list(fi.body), st, cx, lambda s: s.obj())
     out.append('Definition gen_init (self : obj) (detail : option text) (headers : list (text * text)) '
-               '(comment body_template : option text) (kw : list (text * text)) : obj :=\n  %s.\n' % code)
+               '(comment body_template : option text) (json_formatter : option fmt) (kw : list (text * text)) : obj :=\n  %s.\n' % code)
     helpers['init_params'] = {'detail': 'otext', 'headers': 'pairs', 'comment': 'otext', 'body_template': 'otext'}
     helpers['init_order'] = ['detail', 'headers', 'comment', 'body_template']
 
@@ -772,20 +849,33 @@ def translate(tree):
     if ps != ['self', 'location', 'detail', 'headers', 'comment', 'body_template'] or kw != 'kw' \
             or [ast.dump(d) for d in defaults] != ["Constant(value='')"] + ['Constant(value=None)'] * 4:
         raise Problem('_HTTPMove.__init__ signature')
-    mv = [c for c in tree.body if isinstance(c, ast.ClassDef) and c.name == '_HTTPMove'][0]
-    if [ast.dump(b) for b in mv.bases] != ["Name(id='HTTPRedirection', ctx=Load())"]:
-        raise Problem('_HTTPMove bases')
-    red = [c for c in tree.body if isinstance(c, ast.ClassDef) and c.name == 'HTTPRedirection'][0]
-    if [ast.dump(b) for b in red.bases] != ["Name(id='HTTPException', ctx=Load())"] or \
-            any(isinstance(f, ast.FunctionDef) for f in red.body):
-        raise Problem('HTTPRedirection defines methods / other bases: super().__init__ is not HTTPException.__init__')
+    helpers['super_ok'] = bool(inherits_base_init(tree, single_base(tree, '_HTTPMove')))
     st = St({'location': T('location', 'text'), 'detail': T('detail', 'otext'), 'headers': T('headers', 'pairs'),
-             'comment': T('comment', 'otext'), 'body_template': T('body_template', 'otext'), 'kw': T('kw', 'kw')}, 'self')
+             'comment': T('comment', 'otext'), 'body_template': T('body_template', 'otext'), 'kw': T('kw', 'kw'),
+             '**kw.json_formatter': T('kw_json_formatter', 'ofmt')}, 'self')
     cx = Ctx('obj', None, meta, helpers)
     code = block(list(fm.body), st, cx, lambda s: s.obj())
     out.append('Definition gen_move_init (self : obj) (location : text) (detail : option text) '
-               '(headers : list (text * text)) (comment body_template : option text) (kw : list (text * text)) : obj :=\n  %s.\n' % code)
+               '(headers : list (text * text)) (comment body_template : option text) '
+               '(kw_json_formatter : option fmt) (kw : list (text * text)) : obj :=\n  %s.\n' % code)
+    # ---- HTTPForbidden.__init__
+    ff = find(tree, 'HTTPForbidden', '__init__')
+    ps, kw, defaults = params_of(ff)
+    if ps != ['self', 'detail', 'headers', 'comment', 'body_template', 'result'] or kw != 'kw' \
+            or [ast.dump(d) for d in defaults] != ['Constant(value=None)'] * 5:
+        raise Problem('HTTPForbidden.__init__ signature')
+    helpers['super_ok'] = bool(inherits_base_init(tree, single_base(tree, 'HTTPForbidden')))
+    helpers['base_init_classes'] = inherits_base_init(tree, single_base(tree, 'HTTPForbidden'))
+    st = St({'detail': T('detail', 'otext'), 'headers': T('headers', 'pairs'), 'comment': T('comment', 'otext'),
+             'body_template': T('body_template', 'otext'), 'result': T('', 'erased'), 'kw': T('kw', 'kw'),
+             '**kw.json_formatter': T('kw_json_formatter', 'ofmt')}, 'self')
+    cx = Ctx('obj', None, meta, helpers)
+    code = block(list(ff.body), st, cx, lambda s: s.obj())
+    out.append('Definition gen_forbidden_init (self : obj) (detail : option text) (headers : list (text * text)) '
+               '(comment body_template : option text) (kw_json_formatter : option fmt) (kw : list (text * text)) : obj :=\n  %s.\n' % code)
     del helpers['init_params']
+    del helpers['base_init_classes']
+    helpers['super_ok'] = False
 
     # ---- prepare
     fp = find(tree, 'HTTPException', 'prepare')
